@@ -685,4 +685,225 @@ theorem doActiveIdle_eff (c c' : Ctx) (now : Int) (sr np : Option Nat) (coll : N
       · cases h
       · cases h
 
+
+/-! ## `do_pass_token`, `do_check_token_pass`, `do_await_status_response` -/
+
+theorem bind_ok_inv {r : Res} {f : Ctx → Res} {c' : Ctx} (h : r.bind f = .ok c') : ∃ c1, r = .ok c1 ∧ f c1 = .ok c' := by
+  cases r with
+  | ok c1 => exact ⟨c1, rfl, h⟩
+  | panic site => cases h
+
+theorem ite_inv {α : Type} {P : Prop} [Decidable P] {x y z : α} (h : (if P then x else y) = z) :
+    (P ∧ x = z) ∨ (¬P ∧ y = z) := by
+  by_cases hp : P
+  · rw [if_pos hp] at h; exact .inl ⟨hp, h⟩
+  · rw [if_neg hp] at h; exact .inr ⟨hp, h⟩
+
+theorem passTokenOn_eff (c c' : Ctx) (now : Int) (att : Attempt) (g : Bool) (a0 : Attempt)
+    (hst : c.s.st = .passToken g a0) (h : passTokenOn c now att = .ok c') :
+    Quiet c c' ∧ c'.s.online = c.s.online ∧ c'.s.ring = c.s.ring.witness c.s.p.address c.s.ring.ns ∧
+    (c'.s.st = .useToken ⟨now, none⟩ false ∨ c'.s.st = .checkTokenPass att) ∧
+    c'.tx = some (sendToken (UInt8.ofNat c.s.ring.ns) (UInt8.ofNat c.s.p.address)) := by
+  unfold passTokenOn at h
+  simp only at h
+  obtain ⟨c2, ht, h⟩ := bind_ok_inv h
+  have := transmit_inv ht
+  subst this
+  simp only [upd] at h
+  rcases ite_inv h with ⟨_, h⟩ | ⟨_, h⟩
+  · obtain ⟨s', hs', hc'⟩ := tr_inv h
+    have := toUseToken_inv hs'
+    subst this; subst hc'
+    exact ⟨⟨rfl, rfl, by simp⟩, by simp, by simp, .inl rfl, rfl⟩
+  · obtain ⟨s', hs', hc'⟩ := tr_inv h
+    have := toCheckTokenPass_inv hs'
+    subst this; subst hc'
+    exact ⟨⟨rfl, rfl, by simp⟩, by simp, by simp, .inr rfl, rfl⟩
+
+/-- Outcomes of `do_pass_token`: still waiting for the synchronisation pause, a GAP poll was sent
+instead (only with `do_gap`), or the token went to NS and the own pass was recorded in the ring view. -/
+def PassPost (c c' : Ctx) (g : Bool) (att : Attempt) (now : Int) : Prop :=
+  Quiet c c' ∧ c'.s.online = c.s.online ∧
+  ((c'.s.st = .passToken g att ∧ c'.s.ring = c.s.ring ∧ c'.tx = c.tx) ∨
+   (g = true ∧ (∃ a, c'.s.st = .awaitStatus a) ∧ c'.s.ring = c.s.ring) ∨
+   (c'.s.ring = c.s.ring.witness c.s.p.address c.s.ring.ns ∧
+      (c'.s.st = .useToken ⟨now, none⟩ false ∨ c'.s.st = .checkTokenPass att) ∧
+      c'.tx = some (sendToken (UInt8.ofNat c.s.ring.ns) (UInt8.ofNat c.s.p.address))))
+
+theorem doPassToken_eff (c c' : Ctx) (now : Int) (g : Bool) (att : Attempt)
+    (hst : c.s.st = .passToken g att) (h : doPassToken c now = .ok c') : PassPost c c' g att now := by
+  unfold doPassToken at h
+  rw [hst] at h
+  simp only at h
+  split at h
+  · cases h
+    exact ⟨⟨rfl, rfl, by simp⟩, by simp, .inl ⟨by simpa using hst, by simp, rfl⟩⟩
+  · split at h
+    · rename_i hg
+      split at h
+      · cases h
+      · rename_i gs hgs
+        simp only [upd] at h
+        split at h
+        · cases h
+        · rename_i c2 addr htg
+          rcases transmitGapPoll_eff _ _ _ _ htg with ⟨h1, h2⟩ | ⟨b, a, h1, h2⟩
+          · cases h2
+          · subst h1
+            obtain ⟨s', hs', hc'⟩ := tr_inv h
+            have := toAwaitStatus_inv hs'
+            subst this; subst hc'
+            exact ⟨⟨rfl, rfl, by simp⟩, by simp, .inr (.inl ⟨hg, ⟨_, rfl⟩, by simp⟩)⟩
+        · rename_i c2 htg
+          rcases transmitGapPoll_eff _ _ _ _ htg with ⟨h1, h2⟩ | ⟨b, a, h1, h2⟩
+          · subst h1
+            obtain ⟨hq, ho, hr, hs, ht⟩ := passTokenOn_eff _ c' now att g att (by simpa using hst) h
+            exact ⟨⟨hq.calls, hq.apps, by simpa using hq.p⟩, by simpa using ho, .inr (.inr ⟨by simpa using hr, hs, by simpa using ht⟩)⟩
+          · cases h2
+    · obtain ⟨hq, ho, hr, hs, ht⟩ := passTokenOn_eff _ c' now att g att (by simpa using hst) h
+      exact ⟨⟨hq.calls, hq.apps, by simpa using hq.p⟩, by simpa using ho, .inr (.inr ⟨by simpa using hr, hs, by simpa using ht⟩)⟩
+
+theorem PassPost.ringEvo {c c' : Ctx} {g : Bool} {att : Attempt} {now : Int} (h : PassPost c c' g att now) :
+    RingEvo c.s.p.address c.s.ring c'.s.ring := by
+  rcases h.2.2 with h | h | h
+  · exact .of_eq h.2.1
+  · exact .of_eq h.2.2
+  · rw [h.1]; exact .witness _ _ (.refl _)
+
+
+/-- The retry branch of pass supervision: which attempt comes next and what the ring view is before the
+token is transmitted again (`remove_station(NS)` exactly on the third expiry). -/
+def RetryStep (r : TokenRing) (att att' : Attempt) (r0 : TokenRing) : Prop :=
+  (att = .first ∧ att' = .second ∧ r0 = r) ∨ (att = .second ∧ att' = .third ∧ r0 = r) ∨
+  (att = .third ∧ att' = .first ∧ r.removeStation r.ns = some r0)
+
+/-- Everything a poll in `CheckTokenPass` can do, split by whether the slot time has expired. -/
+def CheckPost (c c' : Ctx) (now : Int) (att : Attempt) : Prop :=
+  Quiet c c' ∧ c'.s.online = c.s.online ∧
+  (((checkSlotExpired c.s now).2 = true ∧ ∃ r0 att', RetryStep c.s.ring att att' r0 ∧
+      ((c'.s.st = .passToken false att' ∧ c'.s.ring = r0 ∧ c'.tx = c.tx) ∨
+       (c'.s.ring = r0.witness c.s.p.address r0.ns ∧
+          (c'.s.st = .useToken ⟨now, none⟩ false ∨ c'.s.st = .checkTokenPass att') ∧
+          c'.tx = some (sendToken (UInt8.ofNat r0.ns) (UInt8.ofNat c.s.p.address))))) ∨
+   ((checkSlotExpired c.s now).2 = false ∧ ∃ rx' calls ret, receiveAll c.rx = .done rx' calls ret ∧
+      ((calls = [] ∧ c'.s.st = .checkTokenPass att ∧ c'.s.ring = c.s.ring ∧ c'.tx = c.tx) ∨
+       (calls ≠ [] ∧ HeardEvo calls c.s.ring c'.s.ring ∧
+         ((∃ sr' np' coll', c'.s.st = .activeIdle sr' np' coll') ∨ (∃ a b, c'.s.st = .listenToken a b) ∨
+          (∃ pre da sa, calls = pre ++ [(.token da sa, true)] ∧ da.toNat = c.s.p.address ∧ sa.toNat ≠ c.s.p.address ∧
+             sa.toNat = c'.s.ring.ps ∧ c'.s.st = .useToken ⟨now, none⟩ false))))))
+
+theorem doCheckTokenPass_eff (c c' : Ctx) (now : Int) (att : Attempt)
+    (hst : c.s.st = .checkTokenPass att) (h : doCheckTokenPass c now = .ok c') : CheckPost c c' now att := by
+  unfold doCheckTokenPass at h
+  rw [hst] at h
+  simp only at h
+  rcases ite_inv h with ⟨hex, h⟩ | ⟨hex, h⟩
+  · -- slot expired: retransmit (third time: after removing NS)
+    have pass : ∀ (s0 : Station) (r0 : TokenRing) (att' : Attempt), s0.p = c.s.p → s0.online = c.s.online → s0.ring = r0 →
+        s0.st = .passToken false att' → RetryStep c.s.ring att att' r0 →
+        doPassToken { c with s := s0 } now = .ok c' → CheckPost c c' now att := by
+      intro s0 r0 att' e1 e2 e3 e4 hrs hp
+      obtain ⟨hq, ho, hpost⟩ := doPassToken_eff _ c' now false att' e4 hp
+      refine ⟨⟨hq.calls, hq.apps, by rw [hq.p]; exact e1⟩, by rw [ho]; exact e2, .inl ⟨hex, r0, att', hrs, ?_⟩⟩
+      simp only [e1, e3] at hpost
+      rcases hpost with ⟨h1, h2, h3⟩ | ⟨h1, -⟩ | ⟨h1, h2, h3⟩
+      · exact .inl ⟨h1, h2, h3⟩
+      · cases h1
+      · exact .inr ⟨h1, h2, h3⟩
+    cases att with
+    | first =>
+      simp only [tr, toPassToken, checkSlot_fst, gol_st, hst, Res.bind] at h
+      exact pass _ c.s.ring .second (by simp) (by simp) (by simp) rfl (.inl ⟨rfl, rfl, rfl⟩) h
+    | second =>
+      simp only [tr, toPassToken, checkSlot_fst, gol_st, hst, Res.bind] at h
+      exact pass _ c.s.ring .third (by simp) (by simp) (by simp) rfl (.inr (.inl ⟨rfl, rfl, rfl⟩)) h
+    | third =>
+      simp only [checkSlot_fst, gol_ring] at h
+      rcases hrm : c.s.ring.removeStation c.s.ring.ns with _ | r0
+      · rw [hrm] at h; cases h
+      · rw [hrm] at h
+        simp only [tr, toPassToken, upd, checkSlot_fst, gol_st, hst, Res.bind] at h
+        exact pass _ r0 .first (by simp) (by simp) rfl rfl (.inr (.inr ⟨rfl, rfl, hrm⟩)) h
+  · have hex' : (checkSlotExpired c.s now).2 = false := by simpa using hex
+    rcases hrx : receiveAll c.rx with ⟨rx', calls, ret⟩ | _ | _ <;> rw [hrx] at h <;> simp only at h
+    · cases calls with
+      | nil =>
+        cases h
+        exact ⟨⟨rfl, rfl, by simp⟩, by simp, .inr ⟨hex', rx', [], ret, hrx, .inl ⟨rfl, by simpa using hst, by simp, rfl⟩⟩⟩
+      | cons x rest =>
+        obtain ⟨t, l⟩ := x
+        simp only [tr, toActiveIdle, markRx_st, checkSlot_fst, gol_st, hst, Res.bind] at h
+        have h2 : foldTelegrams (fun c t isLast => handleTelegram (upd c fun s => markRx s now) now t isLast)
+            { c with rx := rx', s := { (getOrInsertLast c.s now).1 with st := .activeIdle none none 0 } } ((t, l) :: rest) = .ok c' := by
+          simp only [foldTelegrams, upd]
+          exact h
+        obtain ⟨hq, ho, hev, hpost⟩ := foldIdle_eff now none _ _ c' (.inl ⟨none, 0, rfl⟩) (receiveAll_flags _ _ _ _ hrx) h2
+        refine ⟨⟨hq.calls, hq.apps, by simpa using hq.p⟩, by simpa using ho,
+          .inr ⟨hex', rx', _, ret, hrx, .inr ⟨by simp, by simpa using hev, ?_⟩⟩⟩
+        rcases hpost with h' | h' | ⟨pre, da, sa, hc, hda, hsa, hsrc, hu⟩
+        · exact .inl h'
+        · exact .inr (.inl h')
+        · refine .inr (.inr ⟨pre, da, sa, hc, by simpa using hda, by simpa using hsa, ?_, hu⟩)
+          rcases hsrc with h' | h'
+          · exact h'
+          · cases h'
+    · cases h
+    · cases h
+
+/-- `do_await_status_response`. -/
+theorem doAwaitStatusResponse_eff (c c' : Ctx) (now : Int) (a : Nat) (hst : c.s.st = .awaitStatus a)
+    (h : doAwaitStatusResponse c now = .ok c') :
+    Quiet c c' ∧ c'.s.online = c.s.online ∧ RingEvo c.s.p.address c.s.ring c'.s.ring ∧
+    (c'.s.st = .awaitStatus a ∨ c'.s.st = .passToken false .first ∨ c'.s.st = .useToken ⟨now, none⟩ false ∨
+     c'.s.st = .checkTokenPass .first ∨ c'.s.st = .activeIdle none none 0) := by
+  unfold doAwaitStatusResponse at h
+  rw [hst] at h
+  simp only at h
+  rcases hg : awaitGapPollResponse c now a with ⟨r, resp⟩
+  rw [hg] at h
+  cases r with
+  | panic site => cases h
+  | ok c1 =>
+    obtain ⟨hq, hs1, ho1, -, -, -, hr1⟩ := awaitGap_eff _ _ _ _ _ hg
+    have hs1' : c1.s.st = .awaitStatus a := by rw [hs1]; exact hst
+    have hev1 : RingEvo c.s.p.address c.s.ring c1.s.ring := by
+      rcases hr1 with hr | hr
+      · exact .of_eq hr
+      · exact .setNext a (.refl _) hr
+    cases resp with
+    | waitingForBus =>
+      cases h
+      exact ⟨hq, ho1, hev1, .inl hs1'⟩
+    | responded =>
+      simp only at h
+      obtain ⟨s', hs', hc'⟩ := tr_inv h
+      have := toPassToken_inv hs'
+      subst this; subst hc'
+      exact ⟨⟨hq.calls, hq.apps, by simpa using hq.p⟩, by simpa using ho1, by simpa using hev1, .inr (.inl rfl)⟩
+    | noResponse =>
+      simp only at h
+      obtain ⟨c2, ht, h⟩ := bind_ok_inv h
+      obtain ⟨s', hs', hc'⟩ := tr_inv ht
+      have := toPassToken_inv hs'
+      subst this; subst hc'
+      obtain ⟨hq2, ho2, hpost⟩ := doPassToken_eff _ c' now false .first rfl h
+      have hev2 := PassPost.ringEvo ⟨hq2, ho2, hpost⟩
+      refine ⟨⟨hq2.calls.trans hq.calls, hq2.apps.trans hq.apps, by rw [hq2.p]; simpa using hq.p⟩,
+        by rw [ho2]; simpa using ho1, ?_, ?_⟩
+      · have hp : c1.s.p = c.s.p := hq.p
+        have : RingEvo c.s.p.address c1.s.ring c'.s.ring := by simpa [hp] using hev2
+        exact hev1.trans this
+      · rcases hpost with ⟨h1, -⟩ | ⟨h1, -⟩ | ⟨-, h2, -⟩
+        · exact .inr (.inl h1)
+        · cases h1
+        · rcases h2 with h2 | h2
+          · exact .inr (.inr (.inl h2))
+          · exact .inr (.inr (.inr (.inl h2)))
+    | unexpected =>
+      simp only at h
+      obtain ⟨s', hs', hc'⟩ := tr_inv h
+      have := toActiveIdle_inv hs'
+      subst this; subst hc'
+      exact ⟨⟨hq.calls, hq.apps, by simpa using hq.p⟩, by simpa using ho1, by simpa using hev1, .inr (.inr (.inr (.inr rfl)))⟩
+
 end PV
